@@ -1132,7 +1132,13 @@ impl<'a, 'b> GeneratorState<'a> {
             }
         }
         self.label(&switchend_label)?;
-        self.loops.pop();
+        // A continue inside the switch belongs to the enclosing loop: let it know,
+        // so that a do-while emits the label the continue jumps to
+        if let Some((_, _, true)) = self.loops.pop() {
+            if let Some(l) = self.loops.last_mut() {
+                l.2 = true;
+            }
+        }
         Ok(())
     }
 }
